@@ -4,8 +4,9 @@ From ZC Require Import Base.Corr Model.Msgp Model.StateBin Proof.Msgp Gen.MsgpSc
 Open Scope Z_scope.
 
 Inductive mpc_case :=
-(* a value of the named schema and the bytes MarshalMsg produced for it *)
-| McEnc (name : string) (v : mp_val) (bytes : list Z)
+(* a value of the named schema, the bytes MarshalMsg produced for it, and the bytes of
+   marshalling again what UnmarshalMsg made of them (None: UnmarshalMsg failed) *)
+| McEnc (name : string) (v : mp_val) (bytes : list Z) (again : option (list Z))
 (* arbitrary input bytes given to UnmarshalMsg of a fresh object: error, or the bytes of
    marshalling the decoded object again together with the bytes UnmarshalMsg left over *)
 | McDec (name : string) (input : list Z) (out : option (list Z * list Z))
@@ -36,14 +37,17 @@ Definition mpc_state_eqb (a b : sb_state) : bool :=
 
 Definition mpc_check (c : mpc_case) : bool :=
   match c with
-  | McEnc name v bytes =>
+  | McEnc name v bytes again =>
       match mpc_schema name msgp_schemas with
       | None => false
       | Some t =>
           mpc_bytes_eqb (mp_enc t v) bytes &&
-          match mp_dec t bytes with
-          | Some (v', []) => mp_val_eqb v' v
-          | _ => false
+          match mp_dec t bytes, again with
+          | Some (v', []), Some a =>
+              mpc_bytes_eqb (mp_enc t v') a &&
+              (if mp_wf_tyb t then mp_val_eqb v' v else true)   (* lossless schemas give the value back *)
+          | None, None => true
+          | _, _ => false
           end
       end
   | McDec name input out =>
